@@ -26,6 +26,7 @@
         set) run on what `Prove` returns for a key yields exactly the stored value or its absence,
         for every trie the application can build and every 32-byte hash function - or exhibits a
         hash collision.
+    M8  the size hypothesis of M7 holds for every trie built from keys <= 2^30 bytes, values <= 2^32 bytes;
     J4-J6  the per-block commit with deleteEmptyObjects.
   NOT proved (decided per run by the engine, three ways: in-tree code = Lean model = go-ethereum
   v1.8.27): commit/reopen through the node database (the model keeps the tree in memory), the
@@ -40,6 +41,7 @@ import AnnVerif.Lemmas.TrieCanon
 import AnnVerif.Lemmas.TrieCompact
 import AnnVerif.Lemmas.TrieProof
 import AnnVerif.Lemmas.TrieSmall
+import AnnVerif.Lemmas.TrieBound
 namespace AnnVerif.C11
 open AnnVerif AnnVerif.StateJournal
 
@@ -484,6 +486,67 @@ theorem merkle_proof_verifies (H : Bytes → Bytes) (Hlen : ∀ x, (H x).length 
     exact map_never_reads_empty ws _ q (by simp)
   rw [hl]
   exact Trie.verify_prove H Hlen (build ws) _ inv.1 hne (termKey_keybytesToHex q) hs hnv
+
+theorem keybytesToHex_length (q : Bytes) : (Trie.keybytesToHex q).length = 2 * q.length + 1 := by
+  unfold Trie.keybytesToHex
+  simp only [List.length_append, List.length_cons, List.length_nil]
+  congr 1
+  induction q with
+  | nil => rfl
+  | cons x t ih => simp only [List.map_cons, List.flatten_cons, List.length_append, List.length_cons, List.length_nil, ih]; omega
+
+theorem map_some_mem (ws : List (Bytes × Bytes)) (m : Bytes → Option Bytes) (q v : Bytes)
+    (h : ws.foldl mapUpdate m q = some v) : m q = some v ∨ ∃ w ∈ ws, w.1 = q ∧ w.2 = v := by
+  induction ws generalizing m with
+  | nil => exact Or.inl h
+  | cons w ws ih =>
+    simp only [List.foldl_cons] at h
+    rcases ih _ h with h' | ⟨w', hw', e1, e2⟩
+    · unfold mapUpdate at h'
+      by_cases hq : q = w.1
+      · rw [if_pos hq] at h'
+        by_cases he : w.2.isEmpty
+        · rw [if_pos he] at h'; cases h'
+        · rw [if_neg he] at h'
+          injection h' with h'
+          exact Or.inr ⟨w, by simp, hq.symm, h'⟩
+      · rw [if_neg hq] at h'; exact Or.inl h'
+    · exact Or.inr ⟨w', by simp [hw'], e1, e2⟩
+
+/-- M8: `SmallT`, the size hypothesis of M7, holds for every trie built from keys of at most 2^30
+    bytes and values of at most 2^32 bytes - whatever was written, overwritten and deleted -/
+theorem built_tries_are_small (H : Bytes → Bytes) (Hlen : ∀ x, (H x).length = 32) (ws : List (Bytes × Bytes))
+    (hk : ∀ w ∈ ws, w.1.length ≤ 2 ^ 30) (hv : ∀ w ∈ ws, w.2.length ≤ 2 ^ 32) :
+    Trie.SmallT H (build ws) := by
+  obtain ⟨inv, g⟩ := trie_refines_map ws
+  apply Trie.bnd_small H Hlen (K := 2 ^ 32) (V := 2 ^ 32) (Nat.le_refl _) (Nat.le_refl _)
+  apply Trie.cb_bnd inv.1 inv.2
+  intro r v hr hg
+  rw [List.nil_append] at hr ⊢
+  by_cases hex : ∃ q, r = Trie.keybytesToHex q
+  · obtain ⟨q, rfl⟩ := hex
+    have hl : ws.foldl mapUpdate (fun _ => none) q = some v := by
+      rw [← g q, lookup_eq_getN inv q]; exact hg
+    rcases map_some_mem ws _ q v hl with h0 | ⟨w, hw, e1, e2⟩
+    · cases h0
+    · have h1 := hk w hw
+      have h2 := hv w hw
+      rw [e1] at h1; rw [e2] at h2
+      rw [keybytesToHex_length]
+      exact ⟨by omega, h2⟩
+  · have hni : ∀ q, r ≠ Trie.keybytesToHex q := fun q e => hex ⟨q, e⟩
+    have hnone := build_only_byte_keys ws r hr hni
+    unfold build at hnone
+    rw [hnone] at hg; cases hg
+
+/-- M7 with the size hypothesis discharged: for keys of at most 2^30 bytes and values of at most
+    2^32 bytes the proof `Prove` returns verifies to exactly what the trie holds, or the hash collides -/
+theorem merkle_proof_verifies_bounded (H : Bytes → Bytes) (Hlen : ∀ x, (H x).length = 32) (ws : List (Bytes × Bytes))
+    (hk : ∀ w ∈ ws, w.1.length ≤ 2 ^ 30) (hv : ∀ w ∈ ws, w.2.length ≤ 2 ^ 32)
+    (q : Bytes) (hne : (build ws).isEmpty = false) :
+    Trie.verify H (Trie.prove H (build ws) (Trie.keybytesToHex q)) ((Trie.keybytesToHex q).length + 1)
+      (Trie.rootHash H (build ws)) (Trie.keybytesToHex q) = some (Trie.lookup (build ws) q) ∨ Trie.Coll H :=
+  merkle_proof_verifies H Hlen ws q hne (built_tries_are_small H Hlen ws hk hv)
 
 /-- not vacuous: a trie with nodes stored by hash (values of 40 and 33 bytes) meets the hypotheses,
     its proofs have several elements, and they verify for a present and for an absent key (a toy
